@@ -46,9 +46,11 @@ def fam_a():
                     for chunks in (1, 2, 3):
                         for big in (False, True):
                             for dtype in ('DaqMxRawData', CODE2TYPE[code]):
-                                sc = [(code, 0, off, 0, 0)]
-                                enc = F.daqmx_enc(n, sc, [width], 'fc', dtype)
-                                yield ('A', [G.seg([(A, enc, nscales(sc) if dtype == 'DaqMxRawData' else [])], chunks=chunks, big=big)])
+                                # the channel's only scaler need not have id 0
+                                for sid in ((0, 1, 3) if (dtype == 'DaqMxRawData' and pad == 1) else (0,)):
+                                    sc = [(code, 0, off, 0, sid)]
+                                    enc = F.daqmx_enc(n, sc, [width], 'fc', dtype)
+                                    yield ('A', [G.seg([(A, enc, nscales(sc) if dtype == 'DaqMxRawData' else [])], chunks=chunks, big=big)])
 
 
 def fam_b():
